@@ -56,6 +56,7 @@ func (s *SeqSpec) build(path []int, labels *[]string) SeqState {
 func (s *SeqSpec) step(c *Ctx, st SeqState, path []int, i int) bool {
 	a := c.Acc
 	viols := st.Apply(i, true)
+	a.TakeSub()
 	a.Transitions++
 	a.Evaluations++
 	a.Nodes++
@@ -68,13 +69,18 @@ func (s *SeqSpec) step(c *Ctx, st SeqState, path []int, i int) bool {
 		return true
 	}
 	full := append(append([]int{}, path...), i)
+	keep := true
 	for _, v := range viols {
 		v.Prop, v.Unit = s.Prop, s.UnitName
 		if id := c.Known.Match(v); id != "" {
 			a.KnownHits[id]++
-			a.AddNote("pruned_by:"+id, 1)
+			if !v.ReadOnly {
+				a.AddNote("pruned_by:"+id, 1)
+				keep = false
+			}
 			continue
 		}
+		keep = false
 		var labels []string
 		st2 := s.build(full, &labels)
 		st2.Close()
@@ -87,7 +93,7 @@ func (s *SeqSpec) step(c *Ctx, st SeqState, path []int, i int) bool {
 		}
 		c.Report(v)
 	}
-	return false
+	return keep
 }
 
 func (s *SeqSpec) stable(full []int, v Violation) bool {
